@@ -286,9 +286,16 @@ impl GrammarBuilder {
                 );
             }
 
+            // A rule may be given in several parts. Production indexes inside
+            // the non-terminal continue where the previous part ended.
+            let ntidx_base = self.nonterminals[rule.name.as_ref().as_str()]
+                .productions
+                .len();
+
             // Gather productions, create indexes. Transform RHS to mark
             // resolving references. Desugar regex-like references.
             for (prod_ntidx, production) in rule.rhs.into_iter().enumerate() {
+                let prod_ntidx = ntidx_base + prod_ntidx;
                 let mut desugar_productions: Vec<Production> = vec![];
                 let prod_idx = self.get_prod_idx();
 
